@@ -119,6 +119,10 @@ type caseJSON struct {
 	// native (synthetic or captured): the Coq term is self-contained, JSON keeps the essentials
 	OutHex string `json:"out_hex,omitempty"`
 	Note   string `json:"note,omitempty"`
+	// native / file cases carry what is needed to re-run them
+	Tx      *caseJSON `json:"tx,omitempty"`       // the transaction the log / file was captured from
+	SynSeed int64     `json:"syn_seed,omitempty"` // seed of a synthetic log
+	SynIdx  int       `json:"syn_idx,omitempty"`
 	// reject: a configuration the parser must refuse
 	Directives string `json:"directives,omitempty"`
 }
@@ -686,7 +690,7 @@ func (rn *runner) runTx(c *caseJSON) {
 					c.Recs = append(c.Recs, r)
 				}
 				// framing of the serial writer: the model's reader must find the same lines
-				fc := &caseJSON{Kind: "file", OutHex: hex.EncodeToString(data)}
+				fc := &caseJSON{Kind: "file", OutHex: hex.EncodeToString(data), Tx: c}
 				var ls []string
 				for _, ln := range lines {
 					ls = append(ls, vh.Hx(ln))
@@ -717,7 +721,7 @@ func (rn *runner) runTx(c *caseJSON) {
 				rn.checkNativeShape(c, out, c.TxID)
 				if term, ok := nativeTerm(al, out); ok && rn.ncap < rn.capLimit {
 					rn.ncap++
-					nc := &caseJSON{Kind: "native", Note: "captured from tx " + c.TxID, OutHex: hex.EncodeToString(out), Parts: r.Parts}
+					nc := &caseJSON{Kind: "native", Note: "captured from tx " + c.TxID, OutHex: hex.EncodeToString(out), Parts: r.Parts, Tx: c}
 					rn.add(term, nc, true, "native|"+c.TxID)
 					rn.res.InputDistribution["native_captured"]++
 				}
@@ -895,7 +899,8 @@ func advBody(r *rand.Rand) string {
 	}
 }
 
-func (rn *runner) runSyntheticNative(r *rand.Rand, i int) {
+func (rn *runner) runSyntheticNative(seed int64, i int) {
+	r := rand.New(rand.NewSource(seed))
 	f, err := auditlog.GetFormatter("native")
 	if err != nil {
 		return
@@ -950,7 +955,7 @@ func (rn *runner) runSyntheticNative(r *rand.Rand, i int) {
 		lg.Messages_ = append(lg.Messages_, auditlog.Message{ErrorMessage_: em, Data_: &auditlog.MessageData{ID_: j + 1, Raw_: "SecAction \"id:" + strconv.Itoa(j+1) + "\"" + advBody(r)}})
 	}
 	out, err := f.Format(lg)
-	c := &caseJSON{Kind: "native", Note: "synthetic", Parts: parts, OutHex: hex.EncodeToString(out)}
+	c := &caseJSON{Kind: "native", Note: "synthetic", Parts: parts, OutHex: hex.EncodeToString(out), SynSeed: seed, SynIdx: i}
 	if err != nil {
 		rn.fail("c19-format-error", "native formatter returned an error: "+err.Error(), c)
 		return
@@ -1254,6 +1259,19 @@ func (rn *runner) concurrencyOracle(G, T, padUnit int) {
 			if n != len(expected) {
 				rn.fail("c19-conc-lost", fmt.Sprintf("concurrent writer stored %d files, %d records expected", n, len(expected)), desc)
 			}
+			// an index entry is four appends under the writer's mutex: address line, request line, status, id - path
+			ilines := strings.Split(strings.TrimSuffix(string(data), "\n"), "\n")
+			if len(ilines) != 4*len(expected) {
+				rn.fail("c19-conc-lost", fmt.Sprintf("index of the concurrent writer has %d lines, %d expected", len(ilines), 4*len(expected)), desc)
+			} else {
+				for i := 0; i+3 < len(ilines); i += 4 {
+					if !strings.HasSuffix(ilines[i], "]") || !strings.HasPrefix(ilines[i+1], " \"") || !strings.HasPrefix(ilines[i+2], " ") ||
+						!strings.Contains(ilines[i+3], " - ") || strings.HasPrefix(ilines[i+3], " ") {
+						rn.fail("c19-conc-interleaved", fmt.Sprintf("index entries of the concurrent writer are interleaved near line %d", i), desc)
+						break
+					}
+				}
+			}
 			for id := range expected {
 				if c := strings.Count(string(data), id+" - "); c != 1 {
 					rn.fail("c19-conc-lost", fmt.Sprintf("index of the concurrent writer names %s %d times", id, c), desc)
@@ -1305,8 +1323,15 @@ func (rn *runner) runDoc(doc []byte) error {
 			rn.fail("c19-config-accepted", "configuration accepted although it must be rejected: "+c.Directives, c)
 		}
 	case "native", "file":
-		// self-contained Coq terms are not stored in replays: re-run the generator with the same seed
-		rn.res.Notes = append(rn.res.Notes, "replay of kind "+c.Kind+" is covered by re-running the tier with the same seed")
+		switch {
+		case c.Tx != nil:
+			rn.capLimit = 1 << 30
+			rn.runTx(c.Tx)
+		case c.SynSeed != 0:
+			rn.runSyntheticNative(c.SynSeed, c.SynIdx)
+		default:
+			rn.res.Notes = append(rn.res.Notes, "replay of this "+c.Kind+" case needs the whole tier re-run with the same seed")
+		}
 	}
 	return nil
 }
@@ -1319,7 +1344,7 @@ func Run(cfg vh.Config) (*vh.Result, error) {
 		return nil, err
 	}
 	defer os.RemoveAll(tmp)
-	rn := &runner{cfg: cfg, res: res, tmp: tmp, seen: map[string]bool{}, capLimit: cfg.Pick(50, 3000)}
+	rn := &runner{cfg: cfg, res: res, tmp: tmp, seen: map[string]bool{}, capLimit: cfg.Pick(50, 1200)}
 	rng := vh.Rng(cfg.Seed, "c19")
 
 	flush := func(name string) error {
@@ -1372,8 +1397,8 @@ func Run(cfg vh.Config) (*vh.Result, error) {
 		return nil, err
 	}
 
-	nTx := cfg.Pick(600, 30000)
-	per := cfg.Pick(300, 1000)
+	nTx := cfg.Pick(450, 12000)
+	per := cfg.Pick(250, 400)
 	shard := 1
 	for i := 0; i < nTx; i++ {
 		rn.runTx(genTx(rng, i))
@@ -1389,7 +1414,7 @@ func Run(cfg vh.Config) (*vh.Result, error) {
 	}
 	shard++
 
-	nParts := cfg.Pick(1200, 20000)
+	nParts := cfg.Pick(1000, 12000)
 	for i := 0; i < nParts; i++ {
 		rn.runParse(genPartsString(rng))
 		base := pick(rng, []string{"ABCFHZ", "AZ", "BC", "", "ABCDEFGHIJKZ", "AKZ", "KB", "ABBZ"})
@@ -1404,10 +1429,10 @@ func Run(cfg vh.Config) (*vh.Result, error) {
 			shard++
 		}
 	}
-	nSyn := cfg.Pick(90, 3000)
+	nSyn := cfg.Pick(90, 1500)
 	for i := 0; i < nSyn; i++ {
-		rn.runSyntheticNative(rng, i)
-		if len(rn.terms) >= 1000 {
+		rn.runSyntheticNative(cfg.Seed*1000003+int64(i)*7919+19, i)
+		if len(rn.terms) >= 200 {
 			if err := flush(fmt.Sprintf("C19_%d", shard)); err != nil {
 				return nil, err
 			}
@@ -1415,7 +1440,7 @@ func Run(cfg vh.Config) (*vh.Result, error) {
 		}
 	}
 	rn.concurrencyOracle(3, 6, 4) // small run: its file also goes through the model's line reader
-	rn.concurrencyOracle(cfg.Pick(16, 32), cfg.Pick(60, 400), 900)
+	rn.concurrencyOracle(cfg.Pick(16, 32), cfg.Pick(60, 150), 900)
 	if err := flush(fmt.Sprintf("C19_%d", shard)); err != nil {
 		return nil, err
 	}
